@@ -319,7 +319,7 @@ class CallMixin:
             rn['r%d' % i] = (v, t)
         if len(vals) == 1:
             rn.setdefault('result', (vals[0], rtypes[0]))
-        if vals and self.ty.under(rtypes[-1])[0] == 'error':
+        if vals and rtypes[-1] == 'error':
             rn.setdefault('err', (vals[-1], rtypes[-1]))
         n2 = dict(allnames)
         n2.update(rn)
@@ -490,10 +490,11 @@ class CallMixin:
             self.record_write(('heap', md))
             st.heap[md] = T.store(arr, m, T.store(T.select(arr, m), k, T.FALSE))
         elif name == 'close':
-            hooks = getattr(self, 'close_hooks', None)
-            if hooks:
-                for h in hooks:
-                    h(ctx, ins, st, args[0])
+            ps = self.closespecs.get(args[0]) if is_term(args[0]) else None
+            if ps is not None:
+                fake = dict(ins)
+                fake['call'] = {'sig': 'func()', 'args': []}
+                self.apply_contract_env(ctx, fake, st, ps, {}, [], [], ps.name)
         elif name in ('min', 'max'):
             r = args[0]
             for a in args[1:]:
@@ -557,6 +558,8 @@ class CallMixin:
         self.cell_types = {}
         self.fnspecs = {}
         self.ifacespecs = {}
+        self.chanspecs = {}
+        self.closespecs = {}
         self.go_sites = []
         self.spawned = False
         self.top_frame = self.new_frame()
@@ -623,6 +626,17 @@ class CallMixin:
                             self.elab_fail('param %s: not a function value' % path)
                 except Unsupported as e:
                     self.elab_fail('param %s: %s' % (path, e))
+        if spec:
+            for table, store_ in ((spec.sends, self.chanspecs), (spec.closes, self.closespecs)):
+                for path, ps in table.items():
+                    try:
+                        v, tn = self.eval(parse_expr(path), env)
+                        if is_term(v):
+                            store_[v] = ps
+                        else:
+                            self.elab_fail('send/closes %s: not a channel value' % path)
+                    except Unsupported as e:
+                        self.elab_fail('send/closes %s: %s' % (path, e))
         self.cover('pre', st)
         try:
             ex, results = self.run_function(fn, frame, st, args, bindings, spec)
@@ -642,7 +656,7 @@ class CallMixin:
             rn['r%d' % i] = (results[i], r['type'])
         if len(results) == 1:
             rn.setdefault('result', (results[0], fn['results'][0]['type']))
-        if results and self.ty.under(fn['results'][-1]['type'])[0] == 'error':
+        if results and fn['results'][-1]['type'] == 'error':
             rn.setdefault('err', (results[-1], fn['results'][-1]['type']))
         n2 = dict(names)
         n2.update(rn)
